@@ -19,7 +19,7 @@ RULE = (
     "k in {0,1,few,all,more}, partial deliveries, quiescence points, refused noise calls and terminations (unbind, notice); every message "
     "carries a unique marker. Offline checks over the log: per direction received == sent (prefix in flight, equal at quiescence), no "
     "ProtocolError except the designed terminations, states agree at quiescence (BEFORE_OPEN == OPENED) and probe agreement on deep copies "
-    "for every id ever used; non-trivial = conversation with >= 2 operations in flight and >= 1 partial delivery; distinct by hash of the action log"
+    "for every id ever used; plus scripted long conversations, floods of open requests and 32 bare-session conversations in which both ends register application filter/control types after traffic and then use them; non-trivial = conversation with >= 2 operations in flight and >= 1 partial delivery; distinct by hash of the action log"
 )
 ASSUMPTIONS = [
     "messages delivered in the same receive call as a termination (unbind / notice) are not required to be returned",
